@@ -253,15 +253,8 @@ func (w *binaryWriter) WriteSymbol(val SymbolToken) error {
 	}
 
 	var id uint64
-	if val.LocalSID != SymbolIDUnknown {
-		id = uint64(val.LocalSID)
-	} else if val.Text != nil {
-		id, w.err = w.resolveFromSymbolTable("Writer.WriteSymbol", *val.Text)
-		if w.err != nil {
-			return w.err
-		}
-	} else {
-		w.err = &UsageError{"Writer.WriteSymbol", "symbol token without defined text or symbol id is invalid"}
+	id, w.err = w.resolveToken("Writer.WriteSymbol", val)
+	if w.err != nil {
 		return w.err
 	}
 
@@ -523,17 +516,9 @@ func (w *binaryWriter) beginValue(api string) error {
 			return &UsageError{api, "field name not set"}
 		}
 
-		var id uint64
-		if name.LocalSID != SymbolIDUnknown {
-			id = uint64(name.LocalSID)
-		} else if name.Text != nil {
-			var err error
-			id, err = w.resolve(api, *name.Text)
-			if err != nil {
-				return err
-			}
-		} else {
-			return &UsageError{api, "field name symbol token does not have defined text or symbol id."}
+		id, err := w.resolveToken(api, *name)
+		if err != nil {
+			return err
 		}
 
 		buf := make([]byte, 0, 10)
@@ -550,15 +535,9 @@ func (w *binaryWriter) beginValue(api string) error {
 		var id uint64
 		var err error
 		for i, a := range as {
-			if a.Text != nil {
-				id, err = w.resolve(api, *a.Text)
-				if err != nil {
-					return err
-				}
-			} else if a.LocalSID != SymbolIDUnknown {
-				id = uint64(a.LocalSID)
-			} else {
-				return &UsageError{api, "invalid annotation symbol token"}
+			id, err = w.resolveToken(api, a)
+			if err != nil {
+				return err
 			}
 
 			ids[i] = id
@@ -626,6 +605,21 @@ func (w *binaryWriter) end(api string, t ctx) error {
 	w.ctx.pop()
 
 	return w.endValue()
+}
+
+// ResolveToken resolves a symbol token (a symbol value, field name or annotation) to the ID
+// to write. The token's text is authoritative: it is looked up in (or added to) this writer's
+// symbol table as it is, so it is never mistaken for a '$n' reference and never depends on the
+// ID the token happened to have in the stream it was read from. Only a token without text is
+// written by its ID, which must not be negative.
+func (w *binaryWriter) resolveToken(api string, tok SymbolToken) (uint64, error) {
+	if tok.Text != nil {
+		return w.resolveFromSymbolTable(api, *tok.Text)
+	}
+	if tok.LocalSID < 0 {
+		return 0, &UsageError{api, "symbol token without defined text or symbol id is invalid"}
+	}
+	return uint64(tok.LocalSID), nil
 }
 
 // Resolve resolves a symbol to its ID.
